@@ -151,7 +151,7 @@ fn check(id: &str, tier: &str) -> i32 {
 			children.push((i, child, out));
 		}
 	}
-	let limit = Duration::from_secs((p.watchdog_s)(tier));
+	let limit = Duration::from_secs(std::env::var("PDBV_WATCHDOG").ok().and_then(|s| s.parse().ok()).unwrap_or_else(|| (p.watchdog_s)(tier)));
 	let mut undecided = Vec::new();
 	let mut merged = ShardReport::default();
 	for (i, mut child, out) in children {
